@@ -30,6 +30,13 @@ def observe(o: Any) -> Any:
                     run = [str(getattr(r.status, "value", r.status)), sorted((k, repr(v)) for k, v in r.values.items())]
                 except Exception as e:  # noqa: BLE001
                     run = ["raised", type(e).__name__]
+                # the same with a run-time selection (validation and scoping are then recomputed for that selection)
+                if o.outputs:
+                    try:
+                        r = SyncRunner().run(o, vals, select=[o.outputs[-1]], error_handling="continue", max_iterations=30)
+                        run.append([str(getattr(r.status, "value", r.status)), sorted((k, repr(v)) for k, v in r.values.items())])
+                    except Exception as e:  # noqa: BLE001
+                        run.append(["raised", type(e).__name__])
         return {"graph": [observe(n) for n in o.nodes.values()], "bound": sorted((k, enc_val(v)) for k, v in spec.bound.items()),
                 "own_bound": None, "selected": list(o.selected) if o.selected is not None else None,
                 "entry": list(o.entrypoints_config) if o.entrypoints_config is not None else None,
@@ -89,7 +96,12 @@ class C07(Prop):
                 avail.append(out)
                 if rng.random() < 0.4:
                     avail.append(f"y{i}")
-            yield {"nodes": nodes, "n_ops": rng.randint(3, 8 if tier == "quick" else 25), "seed": rng.randint(0, 10**6)}
+            case = {"nodes": nodes, "n_ops": rng.randint(3, 8 if tier == "quick" else 25), "seed": rng.randint(0, 10**6)}
+            if rng.random() < 0.15:
+                # scripted opening: bind on the base graph, wrap it as a node, build a NEW graph around that node (the inner binding surfaces
+                # in the outer spec), then derive from the outer graph — unbind of the surfaced name included
+                case["prefix"] = ["bind", "asNode", "wrap", rng.choice(["unbind", "bind", "select"]), "unbind"]
+            yield case
 
     # ---------------------------------------------------------------- the history is generated WHILE it is executed (ops must be valid for
     # the real receiver), then stored in the observation so that the model replays exactly the same ops
@@ -109,13 +121,17 @@ class C07(Prop):
         drift = None
         fresh = None
         extra = 0
-        for _ in range(case["n_ops"]):
+        prefix = list(case.get("prefix", []))
+        for _ in range(case["n_ops"] + len(prefix)):
+            force = prefix.pop(0) if prefix else None
             i = rng.randrange(len(objs))
             if rng.random() < 0.6:      # favour graphs and nested-graph nodes (most objects are plain function nodes)
                 pref = [k for k, o in enumerate(objs) if isinstance(o, Graph) or type(o).__name__ == "GraphNode"]
                 i = rng.choice(pref)
+            if force is not None:
+                i = len(objs) - 1       # the scripted opening works on the object made last (first step: the base graph)
             recv = objs[i]
-            op, res = self._apply(rng, recv, i, objs, extra)
+            op, res = self._apply(rng, recv, i, objs, extra, force)
             if op is None:
                 continue
             if op["t"] == "addNode":
@@ -147,7 +163,28 @@ class C07(Prop):
                 influence = (f"{op} on object {op['i']} gives a different object when repeated after the later derivations from the same ancestor: "
                              f"{snaps[base + r]} -> {o2}")
                 break
-        return {"ops": ops, "rows": rows, "snaps": snaps, "drift": drift, "fresh": fresh, "influence": influence}
+        # history independence: the same operations replayed on a FRESH lineage (new function and node objects) WITHOUT any observation,
+        # cache-filling read or run in between, observed once at the end, must look exactly like the objects of the observed lineage
+        lineage = None
+        try:
+            env2 = Env()
+            fresh_objs: list[Any] = []
+            for n in case["nodes"]:
+                spec = {"name": n["name"], "kind": "fn", "params": [[p, ({"d": n["defaults"][p]} if p in n.get("defaults", {}) else None)] for p in n["inputs"]],
+                        "dataOuts": n["outputs"], "body": {"b": "tag", "t": n["name"]}}
+                fresh_objs.append(build.build_node(spec, 0, [], env2, async_bodies=False))
+            fresh_objs.append(Graph(list(fresh_objs), name="g0"))
+            for op in ops:
+                fresh_objs.append(fresh_objs[op["i"]] if op["t"] in ("readInputs", "readHash") else self._reapply(op, fresh_objs))
+            for j, (a, b) in enumerate(zip(fresh_objs, objs)):
+                oa, ob = observe(a), observe(b)
+                if oa != ob:
+                    lineage = (f"object {j} of the observed history differs from the same object built by replaying the operations on fresh objects "
+                               f"without observing or running anything in between: observed lineage {ob} / fresh lineage {oa}")
+                    break
+        except Exception as e:  # noqa: BLE001
+            lineage = f"replaying the history on fresh objects raised {type(e).__name__}: {e}"[:300]
+        return {"ops": ops, "rows": rows, "snaps": snaps, "drift": drift, "fresh": fresh, "influence": influence, "lineage": lineage}
 
     @staticmethod
     def _reapply(op: dict, objs: list) -> Any:
@@ -175,13 +212,17 @@ class C07(Prop):
             return recv.with_outputs(dict(op["pairs"]))
         if t == "mapOver":
             return recv.map_over(*op["names"])
+        if t == "wrap":
+            return Graph([recv], name=op["name"])
         raise ValueError(t)
 
-    def _apply(self, rng: random.Random, recv: Any, i: int, objs: list, extra: int) -> tuple[dict | None, Any]:
+    def _apply(self, rng: random.Random, recv: Any, i: int, objs: list, extra: int, force: str | None = None) -> tuple[dict | None, Any]:
         try:
             if isinstance(recv, Graph):
                 spec = recv.inputs
                 choice = rng.choice(["bind", "bind", "unbind", "select", "withEntrypoint", "asNode", "readInputs", "readHash", "addNode", "addNode", "addNone"])
+                if force is not None:
+                    choice = force
                 if choice == "bind":
                     cands = list(spec.required) + list(spec.optional)
                     if not cands:
@@ -221,7 +262,13 @@ class C07(Prop):
                 return {"t": "addNode", "i": i, "j": j}, recv.add_nodes(objs[j])
             # node receiver
             is_gn = type(recv).__name__ == "GraphNode"
-            choice = rng.choice(["withName", "withInputs", "withOutputs"] + (["mapOver"] if is_gn else []))
+            choice = rng.choice(["withName", "withInputs", "withOutputs"] + (["mapOver", "wrap", "wrap"] if is_gn else []))
+            if force is not None and is_gn:
+                choice = force
+            if choice == "wrap":
+                # a NEW graph around a nested-graph node (its inner bindings surface in the outer graph's spec)
+                name = f"outer{len(objs)}"
+                return {"t": "wrap", "i": i, "name": name}, Graph([recv], name=name)
             if choice == "withName":
                 name = f"nm{len(objs)}"
                 return {"t": "withName", "i": i, "name": name}, recv.with_name(name)
@@ -270,6 +317,8 @@ class C07(Prop):
             return obs["fresh"]
         if obs.get("influence"):
             return obs["influence"]
+        if obs.get("lineage"):
+            return obs["lineage"]
         return None
 
     # ---------------------------------------------------------------- model
@@ -279,7 +328,10 @@ class C07(Prop):
     def compare(self, case: dict, i: Any, driver: Any) -> str | None:
         if not i["ops"]:
             return None
-        m = driver.ask({"op": "heap", "nodes": case["nodes"], "ops": i["ops"]})
+        # `wrap` (a new Graph around an existing wrapper node) has no counterpart in the heap model: a no-op read keeps the numbering aligned,
+        # the result and everything derived from it are judged by the oracles only
+        mops = [({"t": "readHash", "i": op["i"]} if op["t"] == "wrap" else op) for op in i["ops"]]
+        m = driver.ask({"op": "heap", "nodes": case["nodes"], "ops": mops})
         if len(m["rows"]) != len(i["rows"]):
             return f"{len(i['rows'])} operations on the implementation side, {len(m['rows'])} rows from the model"
         # The heap model gives a wrapper node the inner graph's free parameters as inputs; the real wrapper's inputs also depend on the inner
@@ -291,6 +343,8 @@ class C07(Prop):
             res = base + r
             recv_obs = i["rows"][r][op["i"]]
             if op["t"] == "asNode" and (recv_obs.get("entry") is not None or recv_obs.get("selected") is not None):
+                tainted.add(res)
+            if op["t"] == "wrap":
                 tainted.add(res)
             if op["i"] in tainted or (op["t"] == "addNode" and op["j"] in tainted):
                 tainted.add(res)
